@@ -64,11 +64,86 @@ theorem rel_reachable (n : Nat) (hn : 1 ≤ n) (arr : List (Nat × Elem α))
         obtain ⟨_, h2⟩ := step_ok rel hT hs
         exact ih _ sp' _ h2 hok
 
-/-- **C17 (progress caused by watermarks, `_partial`).** In a reachable state, for a
-    contract-respecting watermark arrival: if the specification frontier changes, `Start` emits
-    exactly one watermark, equal to the new minimum, as the output of that very arrival (hence
-    before any later element); if it does not change, nothing is emitted. -/
-theorem frontier_progress_partial {s : State} {sp sp' : InSt} {outW : Option Int} {r : Nat} {t : Int}
+/-- what the block has been told (last watermark emitted in this iteration) or is about to be told
+    (the pending announcement) -/
+def told (s : State) (outW : Option Int) : Option Int :=
+  match s.pending with | some p => some p | none => outW
+
+/-- **C17 (nothing is withheld, invariant form).** In every state reachable through
+    contract-respecting arrivals, the last watermark the block has observed in this iteration —
+    or the announcement that is pending and will be emitted before the next data element — equals
+    the specification frontier: the minimum over the replicas that have not ended their iteration of
+    their latest watermark. -/
+theorem frontier_told_is_spec {s : State} {sp : InSt} {outW : Option Int} (rel : Rel s sp outW) :
+    told s outW = specFront sp := by
+  have he := rel.eff
+  have hf := front_eq_spec rel
+  unfold told
+  cases hp : s.pending with
+  | none => rw [hp] at he; simp only at he ⊢; rw [← he]; exact hf
+  | some p => rw [hp] at he; simp only at he ⊢; rw [← he]; exact hf
+
+/-- **C17 (progress, full strength).** For every contract-respecting arrival of a data element in
+    a reachable state, the output is the element itself, preceded by a watermark exactly when an
+    announcement was pending, and the last watermark observed by the block's operators when they
+    see the element equals the current minimum over the active replicas — whatever caused the last
+    increase (a watermark arrival or a replica ending its iteration). -/
+theorem frontier_progress {s : State} {sp sp' : InSt} {outW : Option Int} {r : Nat} {e : Elem α}
+    (rel : Rel s sp outW) (hT : s.missingTerm ≠ 0) (hd : e.isData = true)
+    (hin : inStep sp r e = some sp') :
+    ∃ pre, (step s (.elem r e)).2 = pre ++ [e] ∧ (pre = [] ∨ ∃ p, pre = [.wm p]) ∧
+      wmAfter outW pre = specFront sp ∧ specFront sp' = specFront sp := by
+  have htold := frontier_told_is_spec rel
+  obtain ⟨_, h2⟩ := step_ok (α := α) rel hT hin
+  have hspec : specFront sp' = specFront sp := by
+    -- a data arrival does not touch the frontier
+    have hT' : (step s (.elem r e)).1.missingTerm ≠ 0 := by
+      cases e with
+      | item a => simp only [step, hT, if_false]; cases s.pending <;> exact hT
+      | ts a t => simp only [step, hT, if_false]; cases s.pending <;> exact hT
+      | wm t => simp [Elem.isData] at hd
+      | far => simp [Elem.isData] at hd
+      | term => simp [Elem.isData] at hd
+      | flushBatch => simp [Elem.isData] at hd
+    have rel' := h2.resolve_left hT'
+    have hfr : (step s (.elem r e)).1.frontier = s.frontier := by
+      cases e with
+      | item a => simp only [step, hT, if_false]; cases s.pending <;> rfl
+      | ts a t => simp only [step, hT, if_false]; cases s.pending <;> rfl
+      | wm t => simp [Elem.isData] at hd
+      | far => simp [Elem.isData] at hd
+      | term => simp [Elem.isData] at hd
+      | flushBatch => simp [Elem.isData] at hd
+    rw [← front_eq_spec rel', ← front_eq_spec rel, hfr]
+  unfold told at htold
+  cases e with
+  | item a =>
+    simp only [step, hT, if_false]
+    cases hp : s.pending with
+    | none =>
+      rw [hp] at htold
+      exact ⟨[], by simp, Or.inl rfl, by simpa [wmAfter] using htold, hspec⟩
+    | some p =>
+      rw [hp] at htold
+      exact ⟨[.wm p], by simp, Or.inr ⟨p, rfl⟩, by simpa [wmAfter] using htold, hspec⟩
+  | ts a t =>
+    simp only [step, hT, if_false]
+    cases hp : s.pending with
+    | none =>
+      rw [hp] at htold
+      exact ⟨[], by simp, Or.inl rfl, by simpa [wmAfter] using htold, hspec⟩
+    | some p =>
+      rw [hp] at htold
+      exact ⟨[.wm p], by simp, Or.inr ⟨p, rfl⟩, by simpa [wmAfter] using htold, hspec⟩
+  | wm t => simp [Elem.isData] at hd
+  | far => simp [Elem.isData] at hd
+  | term => simp [Elem.isData] at hd
+  | flushBatch => simp [Elem.isData] at hd
+
+/-- **C17 (increases caused by watermarks are announced immediately).** For a contract-respecting
+    watermark arrival: if the specification frontier changes, `Start` emits exactly one watermark,
+    equal to the new minimum, as the output of that very arrival; otherwise nothing. -/
+theorem frontier_progress_watermark {s : State} {sp sp' : InSt} {outW : Option Int} {r : Nat} {t : Int}
     (rel : Rel s sp outW) (hT : s.missingTerm ≠ 0)
     (hin : inStep sp r (Elem.wm t : Elem α) = some sp') :
     (step s (.elem r (Elem.wm t : Elem α))).2 =
@@ -76,7 +151,9 @@ theorem frontier_progress_partial {s : State} {sp sp' : InSt} {outW : Option Int
        else match specFront sp' with | some f' => [.wm f'] | none => []) := by
   obtain ⟨_, h2⟩ := step_ok (α := α) rel hT hin
   have hT' : (step s (.elem r (Elem.wm t : Elem α))).1.missingTerm ≠ 0 := by
-    simp only [step, hT, if_false]; exact hT
+    simp only [step, hT, if_false]
+    rcases hu : s.frontier.update r t with ⟨f, o⟩
+    cases o <;> exact hT
   have rel' := h2.resolve_left hT'
   have hf := front_eq_spec rel
   have hf' := front_eq_spec rel'
@@ -100,27 +177,25 @@ theorem frontier_progress_partial {s : State} {sp sp' : InSt} {outW : Option Int
         · have : ¬ (f' = f) := fun h => heq h.symm
           simp [announce, heq, this]
 
-/-- **F5 — the full-strength progress statement is false for the unchanged code.** Two replicas;
-    replica 0 announces 20, replica 1 announces 100, then replica 0 ends its iteration: the minimum
-    over the active replicas rises from 20 to 100, nothing is emitted, and the next data element
-    of replica 1 (timestamp 150) is observed with last watermark 20. The history respects the
-    contract. -/
-theorem frontier_progress_counterexample :
+/-- The former F5 witness (fixed in /repo): two replicas; replica 0 announces 20, replica 1
+    announces 100, replica 0 ends its iteration — the minimum over the active replicas rises from 20
+    to 100 — and the next data element of replica 1 (timestamp 150) is now preceded by
+    `Watermark(100)`. -/
+example :
     let pre : List (Nat × Elem Nat) := [(0, .wm 20), (1, .wm 100)]
     let arr := pre ++ [(0, .far), (1, .ts 7 150)]
     inputOk 2 arr = true ∧
     specFront (inStateAfter (InSt.init 2) pre) = some 20 ∧
     specFront (inStateAfter (InSt.init 2) (pre ++ [(0, .far)])) = some 100 ∧
-    run 2 (arr.map (fun p => Arrival.elem p.1 p.2)) = [.wm 20, .ts 7 150] := by
+    run 2 (arr.map (fun p => Arrival.elem p.1 p.2)) = [.wm 20, .wm 100, .ts 7 150] := by
   decide
 
-/-- Non-vacuity of `frontier_progress_partial`: a reachable state and a watermark arrival that
-    raises the minimum from 20 to 100. -/
+/-- a later watermark supersedes a pending announcement (behaviour pinned by the repository's unit
+    test `test_single_watermark`) -/
 example :
-    let pre : List (Nat × Elem Nat) := [(0, .wm 20), (1, .wm 100)]
-    let arr : List (Nat × Elem Nat) := pre ++ [(0, .wm 110)]
+    let arr : List (Nat × Elem Nat) := [(0, .wm 20), (1, .wm 100), (0, .far), (1, .wm 110)]
     inputOk 2 arr = true ∧
-    run 2 (arr.map (fun p => Arrival.elem p.1 p.2)) = [.wm 20, .wm 100] := by
+    run 2 (arr.map (fun p => Arrival.elem p.1 p.2)) = [.wm 20, .wm 110] := by
   decide
 
 end Noir.Start
